@@ -273,7 +273,7 @@ def argument_forms(part, ta, tb):
         for where, tick_p in (("inside-offgrid", (lo + hi) // 2 // sp_ * sp_ + 3), ("just-above-lower", lo + 1), ("just-below-upper", hi - 1), ("below", lo - 13), ("above", hi + 17)):
             sqp = ref_sqrt_ratio(tick_p)
             for offer in ((Decimal(3), Decimal(3)), (Decimal(0), Decimal(3)), (Decimal(3), Decimal(0)), (Decimal(0), Decimal(0))):
-                for form in ("by_tick(tick=)", "by_price"):
+                for form in ("by_tick(tick=)", "by_price", "by_tick(sqrt_price_x96=,tick=)"):
                     part.count("evaluations")
                     part.count("argument_forms")
                     broker = Broker()
@@ -292,6 +292,16 @@ def argument_forms(part, ta, tb):
                         if form == "by_tick(tick=)":
                             e0, e1, eliq, _ = V3CoreLib.new_position(pool, amt0, amt1, lo, hi, sqp)
                             pos, base_used, quote_used, liq = market.add_liquidity_by_tick(lo, hi, base_amt, quote_amt, tick=tick_p)
+                        elif form == "by_tick(sqrt_price_x96=,tick=)":
+                            # both given: the precise price wins (documented), here a price half way into the tick; withdrawing at that price returns the deposit
+                            sq_mid = (sqp + ref_sqrt_ratio(tick_p + 1)) // 2
+                            e0, e1, eliq, _ = V3CoreLib.new_position(pool, amt0, amt1, lo, hi, sq_mid)
+                            pos, base_used, quote_used, liq = market.add_liquidity_by_tick(lo, hi, base_amt, quote_amt, sqrt_price_x96=sq_mid, tick=tick_p)
+                            if liq > 0:
+                                back = market.remove_liquidity(pos, collect=False, sqrt_price_x96=sq_mid)
+                                if tuple(back) != (base_used, quote_used):
+                                    part.violation("C07|market|roundtrip|both-arguments", "withdrawing at the deposit price (given as sqrt_price_x96 next to a tick) does not return the deposit",
+                                                   case, {"used": [str(base_used), str(quote_used)], "got_back": [str(x) for x in back]})
                         else:
                             # range given as prices: whichever ticks the market derives, the amounts must follow from THOSE ticks at the bar's price
                             p_lo, p_hi = sorted((market.tick_to_price(lo), market.tick_to_price(hi)))
